@@ -1134,12 +1134,22 @@ fn recv_message(
             // Note: we always use blocking mode for followup fragments,
             // to make sure that once we start receiving a multi-fragment message,
             // we don't abort in the middle of it...
-            let result = libc::recv(
+            let mut result = libc::recv(
                 dedicated_rx.fd.get(),
                 main_data_buffer[write_pos..].as_mut_ptr() as *mut c_void,
                 end_pos - write_pos,
                 0,
             );
+            if result == 0 {
+                // As above: the sender closes the dedicated channel right after the last
+                // fragment, and end-of-file can overtake that fragment. Look again.
+                result = libc::recv(
+                    dedicated_rx.fd.get(),
+                    main_data_buffer[write_pos..].as_mut_ptr() as *mut c_void,
+                    end_pos - write_pos,
+                    libc::MSG_DONTWAIT,
+                );
+            }
             main_data_buffer.set_len(write_pos + cmp::max(result, 0) as usize);
             result
         };
@@ -1263,7 +1273,18 @@ impl UnixCmsg {
             BlockingMode::Blocking => {},
         }
 
-        let result = recvmsg(fd, &mut self.msghdr, RECVMSG_FLAGS);
+        let mut result = recvmsg(fd, &mut self.msghdr, RECVMSG_FLAGS);
+        if result == 0 {
+            // End of file -- or so the kernel says. It looks for a queued message first
+            // and for a closed peer second, without anything keeping the two consistent:
+            // when the last message is sent and its sender closed right in between,
+            // we are told that the channel is closed while that message sits in the queue.
+            // Once the peer is gone that is final, so asking again settles the matter.
+            self.msghdr.msg_controllen =
+                CMSG_SPACE(MAX_FDS_IN_CMSG as usize * mem::size_of::<c_int>()) as MsgControlLen;
+            self.msghdr.msg_flags = 0;
+            result = recvmsg(fd, &mut self.msghdr, RECVMSG_FLAGS | libc::MSG_DONTWAIT);
+        }
 
         let result = match result.cmp(&0) {
             cmp::Ordering::Equal => Err(UnixError::ChannelClosed),
